@@ -182,6 +182,14 @@ fn main() {
             let lines = util::log_close();
             util::write_json(&summary, &json!({"cases": stats.cases, "events": lines}));
         }
+        "idl-rerender" => {
+            // diagnostic: parse a text with zlink and print its rendering
+            let text = std::fs::read_to_string(arg_val(&args, "--file").expect("--file")).unwrap();
+            match zlink_core::idl::Interface::try_from(text.as_str()) {
+                Ok(i) => print!("{i}"),
+                Err(e) => println!("REJECTED: {e}"),
+            }
+        }
         "idl" => {
             let mut r = Rng::new(seed ^ 0x1d1);
             let mode = arg_val(&args, "--mode").unwrap_or_else(|| "parse".into());
